@@ -190,3 +190,39 @@ func C05(c *Ctx) {
 		MinDistinct: 300,
 	})
 }
+
+// C06 — consumer-side range/pull code.
+func C06(c *Ctx) {
+	n := 400
+	if c.Thorough() {
+		n = 5000
+	}
+	progs := append(cases.Consumer(), genr.Consumer(n, c.Seed)...)
+	c.Rep.Rule = "consumer functions in processed files: range loops over iterators (:= and = binding, no variable) with break/continue/return at tape-chosen iterations, nested ranges, pull-then-range-then-pull on ONE iterator, iterators held in struct fields / maps / slices / arrays / channels / closures / func slices / generic boxes, generic and method generators, plain helper functions that return or break out of a range; the generator side logs an effect before each yield, so over-pulling is an extra event; reference = Go's range-over-func over All() on the reference coroutine; compared: full trace under every tape path. non-trivial = trace longer than 10 events; distinct = program text hash x tape."
+	RunE1(c, E1Spec{
+		Programs:             progs,
+		Opts:                 e1.Opts{MaxPaths: 40},
+		Kinds:                []string{"CR-full", "STUB"},
+		AcceptanceViolations: true, // incomplete type replacement shows up as an unbuildable output
+		NonTrivial:           func(o *e1.Outcome) bool { return o.Run != nil && o.Run.MaxTrace > 10 },
+		MinDistinct:          300,
+	})
+}
+
+// C18 — panics surface from the advance that ran the panicking statement.
+func C18(c *Ctx) {
+	q := c.Rep.QuarantinedFeatures()
+	n := 600
+	if c.Thorough() {
+		n = 8000
+	}
+	progs := append(cases.Panics(), genr.Random(genr.Panic, n, c.Seed, q)...)
+	c.Rep.Rule = "programs with explicit panics (string and error values) and implicit run-time panics (index out of range, nil map write, integer division by zero, nil func call) at PRNG-chosen statement positions, mostly guarded by a tape bit so that paths with and without the panic are explored; also in delegates, loop conditions, for-post, switch tags, closures called after a yield, two live iterators; the consumer wraps EACH call in its own recover and logs the panic at the call where it surfaced; compared: full trace (which call, which value, everything before it) compiled vs reference coroutine; nothing after the panicking call is compared. non-trivial = some path panicked; distinct = shape hash x tape."
+	RunE1(c, E1Spec{
+		Programs:    progs,
+		Opts:        e1.Opts{Hist: []int{1, 2, 3}, HistPaths: 3},
+		Kinds:       []string{"CR-full", "STUB"},
+		NonTrivial:  func(o *e1.Outcome) bool { return o.Run != nil && o.Run.PanicRuns > 0 },
+		MinDistinct: 300,
+	})
+}
